@@ -36,8 +36,11 @@ def echo_program(r, hazards=None):
     """Functions that write every parameter, in order, to distinct device cells and return a value built from
     them; callers write every result to distinct cells.  Call graph: each function may call earlier ones."""
     hz = hazards or {}
-    if r.random() < 0.15:
+    k0 = r.random()
+    if k0 < 0.15:
         return suffix_program(r)
+    if k0 < 0.3:
+        return once_called_program(r)
     cells = _Cells(r)
     lines = []
     funcs = []  # (name, nparams, ret, depth)
@@ -133,6 +136,47 @@ def echo_program(r, hazards=None):
             else:
                 main.append(f"        {g[0]}({args})")
     return HEADER + "\n".join(lines + main) + "\n"
+
+
+def once_called_program(r):
+    """Functions with exactly one call site (candidates for inlining) next to functions called several times, with
+    every mix of parameters / `global` / result / early return, and names in random sort order: whatever decides
+    'inline or subroutine' must agree with whatever decides 'emit a return'."""
+    cells = _Cells(r)
+    names = r.sample(["accumulate", "report", "blend", "zeta", "mid", "apply_it"], r.randint(2, 4))
+    L = [f"total = {_dyn(r)} + 1"]
+    funcs = []
+    for k, nm in enumerate(names):
+        npar = r.choice([0, 1, 1, 2])
+        ps = [f"p{k}_{j}" for j in range(npar)]
+        glob = r.random() < 0.6
+        ret = r.random() < 0.4
+        body = []
+        if glob:
+            body.append("    global total")
+            body.append(f"    total = total + {ps[0] if ps else r.randint(1, 5)}")
+        for p in ps:
+            body.append(f"    {cells.next()} = {p}")
+        if r.random() < 0.3:
+            body += [f"    if {r.choice(IN_BOOL)}:", "        return" + (" 7" if ret else "")]
+        if funcs and r.random() < 0.4:
+            g = r.choice(funcs)
+            body.append(f"    {g[0]}({', '.join(_arg(r, ps) for _ in range(g[1]))})")
+        body.append(f"    {cells.next()} = {'total' if glob else r.randint(100, 199)}")
+        if ret:
+            body.append(f"    return {ps[-1] + ' * 2' if ps else '3'}")
+        L.append(f"def {nm}({', '.join(ps)}):")
+        L += body
+        funcs.append((nm, npar, ret))
+    main = ["while True:", "    yield_()"]
+    calls = []
+    once = set(r.sample(range(len(funcs)), r.randint(1, max(1, len(funcs) - 1))))
+    for k, (nm, npar, ret) in enumerate(funcs):
+        for _ in range(1 if k in once else r.randint(2, 3)):
+            c = f"{nm}({', '.join(_arg(r, []) for _ in range(npar))})"
+            calls.append(f"    {cells.next()} = {c}" if ret and r.random() < 0.6 else f"    {c}")
+    r.shuffle(calls)
+    return HEADER + "\n".join(L + main + calls + [f"    {cells.next()} = total"]) + "\n"
 
 
 def suffix_program(r, terminating=False):
